@@ -314,3 +314,47 @@ MUTANTS += [
         (LK, "        for vert in self._vertices:\n            if vert is not None:\n                # pylint: disable-next=protected-access\n                vert._qa_neighbors_invalidate()",
              "        for vert in self._vertices[1:]:\n            if vert is not None:\n                # pylint: disable-next=protected-access\n                vert._qa_neighbors_invalidate()")]),
 ]
+
+MUTANTS += [
+    # ---------------- C12 -------------------------------------------------
+    dict(id="c12_revert_fix_d12_out", props=["C12"], edits=[
+        (VX, "            return list(self.__qa_nb_cache[args])\n", "            return self.__qa_nb_cache[args]\n")]),
+    dict(id="c12_revert_fix_d12_in", props=["C12"], edits=[
+        (VX, "        self.__qa_nb_cache[args] = list(answer)\n", "        self.__qa_nb_cache[args] = answer\n")]),
+    dict(id="c12_revert_fix_d13", props=["C12", "C19"], edits=[
+        (UV, "                    t: dict(linkset.items())\n                    for t, linkset in edge_whitelist.items()\n                }\n            self.edge_whitelist",
+             "                    t: linkset\n                    for t, linkset in edge_whitelist.items()\n                }\n            self.edge_whitelist")]),
+    dict(id="c12_universe_vertices_returns_internal", props=["C12"], edits=[
+        (UV, "        return list(self._vertices)\n", "        return self._vertices\n")]),
+    dict(id="c12_base_universes_returns_internal", props=["C12"], edits=[
+        (BS, "        return list(self._universes)\n", "        return self._universes\n")]),
+    dict(id="c12_universe_init_keeps_list_when_unique", props=["C12"], edits=[
+        (UV, "        self._vertices: list[Vertex] = []\n        if vertices is not None:\n            for v in vertices:\n                self.add_vertex(v)\n",
+             "        self._vertices: list[Vertex] = []\n        if vertices is not None:\n            for v in vertices:\n                self.add_vertex(v)\n            if isinstance(vertices, list) and len(vertices) == len(self._vertices):\n                self._vertices = vertices\n")]),
+    dict(id="c12_base_init_keeps_universes_list", props=["C12"], edits=[
+        (BS, "        self._universes = [*dict.fromkeys(self._universes)]\n",
+             "        self._universes = [*dict.fromkeys(self._universes)]\n        if isinstance(universes, list) and len(universes) == len(self._universes):\n            self._universes = universes\n")]),
+    dict(id="c12_whitelist_outer_dict_returned", props=["C12"], edits=[
+        (UV, "        out = types.MappingProxyType(\n            {\n                t: types.MappingProxyType(dict(linkset.items()))\n                for t, linkset in self._edge_whitelist.items()\n            }\n        )\n        return out",
+             "        out = {\n                t: types.MappingProxyType(dict(linkset.items()))\n                for t, linkset in self._edge_whitelist.items()\n            }\n        self._edge_whitelist = out\n        return out")]),
+]
+
+AM = "edgegraph/builder/adjmatrix.py"
+MUTANTS += [
+    # ---------------- C11 -------------------------------------------------
+    dict(id="c11_matrix_swap_ij", props=["C11"], edits=[
+        (AM, "                explicit.link_from_to(vertices[i], linktype, vertices[j])", "                explicit.link_from_to(vertices[j], linktype, vertices[i])")]),
+    dict(id="c11_matrix_cell_is_true", props=["C11"], edits=[(AM, "            if cell:\n", "            if cell in (1, True) or cell == 1:\n")]),
+    dict(id="c11_matrix_validate_late", props=["C11"], edits=[
+        (AM, "    # and make sure that the matrix is a square\n", "    uni = Universe()\n\n    for vert in vertices:\n        vert.add_to_universe(uni)\n    # and make sure that the matrix is a square\n"),
+        (AM, "    # okay, good enough!\n\n    uni = Universe()\n\n    for vert in vertices:\n        vert.add_to_universe(uni)\n", "    # okay, good enough!\n")]),
+    dict(id="c11_dict_dontdup", props=["C11"], edits=[
+        (AL, "            explicit.link_from_to(v1, linktype, v2)\n", "            explicit.link_from_to(v1, linktype, v2, dontdup=True)\n")]),
+    dict(id="c11_dict_values_added_first", props=["C11"], edits=[
+        (AL, "        v1.add_to_universe(uni)\n        for v2 in v2s:\n            explicit.link_from_to(v1, linktype, v2)\n            v2.add_to_universe(uni)\n",
+             "        v2s = list(v2s)\n        for v2 in v2s:\n            v2.add_to_universe(uni)\n        v1.add_to_universe(uni)\n        for v2 in v2s:\n            explicit.link_from_to(v1, linktype, v2)\n")]),
+    dict(id="c11_dict_skips_self_entries", props=["C11"], edits=[
+        (AL, "            explicit.link_from_to(v1, linktype, v2)\n", "            if v2 is not v1:\n                explicit.link_from_to(v1, linktype, v2)\n")]),
+    dict(id="c11_matrix_upper_triangle_for_undirected", props=["C11"], edits=[
+        (AM, "            if cell:\n", "            if cell and not (j < i and not issubclass(linktype, DirectedEdge) and matrix[j][i]):\n")]),
+]
